@@ -15,7 +15,7 @@ RULE = ("Seeded histories on the real intern tables (hook H2 on): 2-8 threads re
         "value<->id is a bijection per table; get_interned is linearizable per value (None after a returned intern, Some "
         "before any started intern); every deref equals the value; the ids handed out in a history are exactly "
         "[len_before,len_after) and earlier ids never change; Ord equals byte/text/component order; round trips equal the "
-        "input. The same program under Miri (many scheduler seeds) and, in thorough, ThreadSanitizer. Non-trivial: a new value "
+        "input. The same program under Miri (many scheduler seeds) and, in thorough, ThreadSanitizer and AddressSanitizer. Non-trivial: a new value "
         "was interned by >=2 threads and the shard write lock was contended (try_write failed) at least once; distinct = "
         "distinct hash of the merged (site,thread) hook-hit order.")
 
@@ -36,16 +36,19 @@ def run(ctx):
              "miri_hook_hits_by_site": mrep.get("hook_hits", {}),
              "miri_observed": {k: mrep.get("stats", {}).get(k, 0) for k in
                                ("try_write_failures", "new_values_interned_by_2plus_threads", "serde_roundtrips", "lookups_checked")}}
-    trep = {}
+    more = 0
     if not ctx.quick():
-        trep = ic.run_tsan(ctx, "c05", 1500, threads=8, ops=120)
-        v += ic.violations_for("C05", trep)
-        tools["tsan"] = {"histories": trep.get("histories", 0), "report_blocks": len(trep.get("tsan_reports", [])),
-                         "try_write_failures": trep.get("stats", {}).get("try_write_failures", 0)}
+        for flavour, n in (("tsan", 1500), ("asan", 2000)):
+            srep = ic.run_sanitized(ctx, "c05", flavour, n, threads=8, ops=120)
+            v += ic.violations_for("C05", srep)
+            more += srep.get("histories", 0)
+            tools[flavour] = {"histories": srep.get("histories", 0), "report_blocks": len(srep.get("san_reports", [])),
+                              "crashes": len(srep.get("crashes", [])),
+                              "try_write_failures": srep.get("stats", {}).get("try_write_failures", 0)}
     extra = rep.get("extra", {})
     st = rep.get("stats", {})
     cov = {
-        "evaluations": rep.get("histories", 0) + mrep.get("histories", 0) + trep.get("histories", 0),
+        "evaluations": rep.get("histories", 0) + mrep.get("histories", 0) + more,
         "distinct_nontrivial": len(rep.get("fp_nontrivial", ())),
         "rule": RULE,
         "samples": rep.get("samples", [])[:3],
